@@ -211,6 +211,54 @@ func allEntryPoints(b []byte, r *rng) []string {
 		}
 		return nil, ""
 	}))
+	// a cancelled (or nil) context: DecodeWithContext returns the context's error and no FIT, and keeps returning it
+	check(guarded("DecodeWithContext (cancelled / nil context)", func() (error, string) {
+		dec := decoder.New(newReader(), opts...)
+		ctx, cancel := context.WithCancel(context.Background())
+		cancel()
+		fit, err := dec.DecodeWithContext(ctx)
+		if fit != nil {
+			return err, "FIT returned under a cancelled context"
+		}
+		if err == nil {
+			return nil, "no error under a cancelled context"
+		}
+		if fit2, err2 := dec.DecodeWithContext(context.Background()); fit2 != nil || err2 == nil {
+			return err2, fmt.Sprintf("error not sticky after a cancelled context: first %v then %v", err, err2)
+		}
+		dec2 := decoder.New(newReader(), opts...)
+		var nilCtx context.Context
+		for dec2.Next() { // a nil context is the background context
+			fit, err := dec2.DecodeWithContext(nilCtx)
+			if err != nil {
+				if fit != nil {
+					return err, "error returned together with a FIT value"
+				}
+				return err, ""
+			}
+		}
+		return nil, ""
+	}))
+	// the raw decoder's callback returns an error at its k-th call: Decode stops there and returns that error
+	check(guarded("RawDecoder (callback error)", func() (error, string) {
+		stopAt := r.intn(12)
+		calls := 0
+		sentinel := errors.New("callback says stop")
+		_, err := decoder.NewRaw().Decode(newReader(), func(flag decoder.RawFlag, seg []byte) error {
+			calls++
+			if calls-1 == stopAt {
+				return sentinel
+			}
+			if calls-1 > stopAt {
+				return errors.New("called again after an error")
+			}
+			return nil
+		})
+		if calls > stopAt && !errors.Is(err, sentinel) {
+			return err, fmt.Sprintf("callback returned an error at call %d of %d, Decode returned %v", stopAt, calls, err)
+		}
+		return err, ""
+	}))
 	check(guarded("Peek/Discard", func() (error, string) {
 		dec := decoder.New(newReader(), opts...)
 		for i := 0; i < 6; i++ {
